@@ -361,7 +361,6 @@ func callbacks(r *gen.Rand) *Case {
 func generated(r *gen.Rand) *Case {
 	o := gen.DefaultProgOpts()
 	o.Floats = false
-	o.NoCycles = true
 	// gen.Program declares `param (a0, a1)`: the same two positional arguments
 	src := gen.Program(r, o)
 	return &Case{Family: "generated", Src: src, ModelOK: true, Recover: r.Bool()}
